@@ -150,6 +150,8 @@ fn strip_paren(e: &Expr) -> &Expr {
 enum Src {
     Range { lo: Expr, hi: Expr },
     Index { base: Expr, by_ref: bool },
+    /// `xs.chunks(n)`: chunk i is xs[i*n .. min(i*n+n, len)], ceil(len/n) chunks (std docs)
+    Chunks { base: Expr, size: Expr },
 }
 
 #[derive(Clone)]
@@ -184,6 +186,7 @@ fn parse_iter(e: &Expr, bare_ok: bool) -> Option<Iter> {
             let name = m.method.to_string();
             let args: Vec<&Expr> = m.args.iter().collect();
             match (name.as_str(), args.len()) {
+                ("chunks", 1) => Some(Iter { src: Src::Chunks { base: (*m.receiver).clone(), size: args[0].clone() }, adapters: vec![] }),
                 ("iter", 0) => Some(Iter { src: Src::Index { base: (*m.receiver).clone(), by_ref: true }, adapters: vec![] }),
                 ("into_iter", 0) => Some(Iter { src: Src::Index { base: (*m.receiver).clone(), by_ref: false }, adapters: vec![] }),
                 ("copied", 0) | ("cloned", 0) => {
@@ -429,6 +432,30 @@ impl Norm {
     /// `skip/take/zip/enumerate` adapters to (index var, lo, hi, element expression).
     fn lower_iter(&mut self, it: &Iter, pre: &mut Vec<Stmt>) -> Option<(Ident, Expr, Expr, Expr, String)> {
         let mut ads = it.adapters.clone();
+        if let Src::Chunks { base, size } = &it.src {
+            let base = self.bind_simple(base.clone(), "src", pre);
+            let size = self.bind_simple(size.clone(), "csz", pre);
+            let idx = self.fresh("i");
+            let cnt = self.fresh("nchunks");
+            pre.push(parse_quote!(let #cnt = if #base.len() % #size == 0 { #base.len() / #size } else { #base.len() / #size + 1 };));
+            let mut elem: Expr = parse_quote!(vsub(&#base, #idx * #size, if #idx * #size + #size < #base.len() { #idx * #size + #size } else { #base.len() }));
+            let mut notes = vec!["chunks"];
+            let mut hi: Expr = parse_quote!(#cnt);
+            while !ads.is_empty() {
+                match ads.remove(0) {
+                    Adapter::Enumerate => { elem = parse_quote!((#idx, #elem)); notes.push("enumerate"); }
+                    Adapter::Take(n) => {
+                        let n = self.bind_simple(n, "take", pre);
+                        let h = self.fresh("hi");
+                        pre.push(parse_quote!(let #h = if #n < #hi { #n } else { #hi };));
+                        hi = parse_quote!(#h);
+                        notes.push("take");
+                    }
+                    _ => return None,
+                }
+            }
+            return Some((idx, parse_quote!(0), hi, elem, notes.join(",")));
+        }
         let Src::Index { base, by_ref } = &it.src else { return None };
         // owned sources (for x in v / v.into_iter() / f(..)) are always moved into `__src_<hint>`, so the
         // side-car can name the iterated sequence whatever expression produced it
@@ -756,9 +783,13 @@ impl<'a> Rewriter<'a> {
             }
             None => {}
         }
-        if let Stmt::Item(syn::Item::Use(_)) = &s {
-            self.n.rule("N12", s.span(), "function-local `use` dropped (names resolve in the unit's scope)");
-            return vec![];
+        if let Stmt::Item(syn::Item::Use(u)) = &s {
+            // function-local imports of macro crates are dropped (their macros are rewritten by N8); others are kept
+            let txt = quote::ToTokens::to_token_stream(&u.tree).to_string();
+            if txt.starts_with("anyhow") {
+                self.n.rule("N12", s.span(), "function-local `use anyhow::..` dropped (macros rewritten by N8)");
+                return vec![];
+            }
         }
         match &s {
             Stmt::Macro(sm) => {
@@ -1024,6 +1055,26 @@ impl<'a> VisitMut for Rewriter<'a> {
                             self.n.errors.push(format!("unsupported .{name}() receiver at source line {}", sp.start().line));
                         }
                     }
+                    ("to_le_bytes", 0) => {
+                        self.n.rule("N22", sp, "x.to_le_bytes() -> x.vto_le_bytes() (prelude trait, spec per integer type)");
+                        let r = &m.receiver;
+                        replacement = Some(parse_quote!(#r.vto_le_bytes()));
+                    }
+                    ("copy_from_slice", 1) => {
+                        // N21: x[a..b].copy_from_slice(y) -> vcopy_into(&mut x, a, b, y)
+                        if let Expr::Index(ix) = strip_paren(&m.receiver) {
+                            if let Expr::Range(rg) = strip_paren(&ix.index) {
+                                if matches!(rg.limits, syn::RangeLimits::HalfOpen(_)) {
+                                    let base = &ix.expr;
+                                    let lo: Expr = rg.start.as_ref().map(|b| (**b).clone()).unwrap_or_else(|| parse_quote!(0));
+                                    let hi: Expr = rg.end.as_ref().map(|b| (**b).clone()).unwrap_or_else(|| parse_quote!(#base.len()));
+                                    let y = &m.args[0];
+                                    self.n.rule("N21", sp, "x[a..b].copy_from_slice(y) -> vcopy_into(&mut x, a, b, y)");
+                                    replacement = Some(parse_quote!(vcopy_into(&mut #base, #lo, #hi, #y)));
+                                }
+                            }
+                        }
+                    }
                     ("try_into", 0) => {
                         // N19: type-directed std conversion; the prelude trait VTryInto carries one trusted spec per type pair
                         self.n.rule("N19", sp, ".try_into() -> .vtry_into() (prelude trait, spec per type pair)");
@@ -1035,7 +1086,35 @@ impl<'a> VisitMut for Rewriter<'a> {
                         let r = &m.receiver;
                         replacement = Some(parse_quote!(#r.unwrap()));
                     }
-                    ("context", 1) | ("with_context", 1) | ("map_err", 1) => {
+                    ("map_err", 1) => {
+                        // N8b: x.map_err(|p| B) == match x { Ok(v) => Ok(v), Err(p) => Err(B) }
+                        if let Expr::Closure(c) = strip_paren(&m.args[0]) {
+                            if c.inputs.len() == 1 {
+                                let pat = &c.inputs[0];
+                                let body = &c.body;
+                                let r = &m.receiver;
+                                self.n.rule("N8", sp, ".map_err(closure) -> match (std definition)");
+                                replacement = Some(parse_quote!(match #r { Ok(__v) => Ok(__v), Err(#pat) => Err(#body) }));
+                            }
+                        }
+                        if replacement.is_none() {
+                            // map_err(Type::from) and similar: Ok-ness preserved, error value dropped
+                            self.n.rule("N8", sp, ".map_err(fn path) -> .vctx(); error value dropped");
+                            let r = &m.receiver;
+                            replacement = Some(parse_quote!(#r.vctx()));
+                        }
+                    }
+                    ("ok_or_else", 1) => {
+                        if let Expr::Closure(c) = strip_paren(&m.args[0]) {
+                            if c.inputs.is_empty() {
+                                let body = &c.body;
+                                let r = &m.receiver;
+                                self.n.rule("N8", sp, ".ok_or_else(closure) -> match (std definition)");
+                                replacement = Some(parse_quote!(match #r { Some(__v) => Ok(__v), None => Err(#body) }));
+                            }
+                        }
+                    }
+                    ("context", 1) | ("with_context", 1) => {
                         self.n.rule("N8", sp, &format!(".{name}(..) -> .vctx(); message dropped"));
                         let r = &m.receiver;
                         replacement = Some(parse_quote!(#r.vctx()));
@@ -1043,7 +1122,41 @@ impl<'a> VisitMut for Rewriter<'a> {
                     _ => {}
                 }
             }
+            Expr::Reference(rf) if rf.mutability.is_none() => {
+                // N21: `&E[a..b]` -> vsub(&E, a, b)  (std slice indexing by a half-open range)
+                if let Expr::Index(ix) = strip_paren(&rf.expr) {
+                    if let Expr::Range(rg) = strip_paren(&ix.index) {
+                        if matches!(rg.limits, syn::RangeLimits::HalfOpen(_)) {
+                            let base = &ix.expr;
+                            let lo: Expr = rg.start.as_ref().map(|b| (**b).clone()).unwrap_or_else(|| parse_quote!(0));
+                            let hi: Expr = rg.end.as_ref().map(|b| (**b).clone()).unwrap_or_else(|| parse_quote!(#base.len()));
+                            self.n.rule("N21", sp, "&x[a..b] -> vsub(&x, a, b)");
+                            replacement = Some(parse_quote!(vsub(&#base, #lo, #hi)));
+                        }
+                    }
+                }
+            }
             Expr::Call(c) => {
+                // N22: `u64::from_le_bytes(e)` -> vu64_from_le_bytes(e) (std signature uses a const expression Verus cannot name)
+                if let Expr::Path(p) = &*c.func {
+                    if p.path.segments.len() == 2 && p.path.segments[0].ident == "u64" && p.path.segments[1].ident == "from_le_bytes" && c.args.len() == 1 {
+                        let a = &c.args[0];
+                        self.n.rule("N22", sp, "u64::from_le_bytes(e) -> vu64_from_le_bytes(e)");
+                        replacement = Some(parse_quote!(vu64_from_le_bytes(#a)));
+                    }
+                }
+                // N19b: `u32::try_from(e)` / `usize::try_from(e)` ... -> VTryInto::<T>::vtry_into(e)
+                if let Expr::Path(p) = &*c.func {
+                    if p.path.segments.len() == 2 && p.path.segments[1].ident == "try_from" && c.args.len() == 1 {
+                        let t = p.path.segments[0].ident.to_string();
+                        if matches!(t.as_str(), "u8" | "u16" | "u32" | "u64" | "u128" | "usize" | "i32" | "i64") {
+                            let ty = &p.path.segments[0].ident;
+                            let a = &c.args[0];
+                            self.n.rule("N19", sp, "T::try_from(e) -> VTryInto::<T>::vtry_into(e)");
+                            replacement = Some(parse_quote!(VTryInto::<#ty>::vtry_into(#a)));
+                        }
+                    }
+                }
                 // N3: core::array::from_fn(|j| E)
                 if let Expr::Path(p) = &*c.func {
                     let segs: Vec<String> = p.path.segments.iter().map(|s| s.ident.to_string()).collect();
